@@ -94,7 +94,7 @@ def checkTemplate (g : IR) : String :=
   -- side conditions of `C01_generics_closed` / `C07_instance_stable` on this graph (recursive path only)
   let side := if g.opts.allowlistRecursively then
       let I := (templateInstance g).1
-      s!" sidecond_used_template_params={if I.readsCovered && I.depsClosed then 1 else 0}"
+      s!" sidecond_used_template_params={if I.readsCovered && I.depsClosed && I.hornOnly then 1 else 0}"
     else ""
   if bad.isEmpty then s!"used_template_params=ok" ++ side
   else ("used_template_params=DIFF(" ++ ",".intercalate ((bad.take 6).map fun n => s!"{n}:{look model n}:{look dump n}") ++ ")").replace " " "" ++ side
